@@ -81,6 +81,17 @@ def rand_pair(rng, i, simple=False, span=100, sizes=(20, 240)):
         psi = phi + rng.choice([-1, 1]) * rng.uniform(0.5, 1.2)
         bo = (P[0] + R * math.cos(psi), P[1] + R * math.sin(psi))
         return {"kind": "circle", "r": r, "o": o}, {"kind": "circle", "r": R, "o": bo}
+    if fam == 4 and not simple:
+        # a star polygon {n/k} (pentagram, heptagram): its core is wound twice — even-odd says outside, non-zero says inside
+        n, k = rng.choice([(5, 2), (7, 2), (7, 3), (9, 4)])
+        R = float(rng.randint(60, 120))
+        o = (float(rng.randint(-span, span)), float(rng.randint(-span, span)))
+        rot = rng.uniform(0, 2 * math.pi)
+        vs = [(float(round(o[0] + R * math.cos(rot + 2 * math.pi * k * j / n))), float(round(o[1] + R * math.sin(rot + 2 * math.pi * k * j / n)))) for j in range(n)]
+        star = {"kind": "contour", "segs": [[vs[j], vs[(j + 1) % n]] for j in range(n)]}
+        w, h = float(rng.randint(80, 240)), float(rng.randint(80, 240))
+        other = {"kind": "rect", "w": w, "h": h, "o": (o[0] + float(rng.randint(-30, 30)), o[1] + float(rng.randint(-30, 30)))}
+        return (other, star) if rng.random() < 0.6 else (star, other)
     return rand_shape(rng, simple=simple, span=span, sizes=sizes), rand_shape(rng, simple=simple, span=span, sizes=sizes)
 
 
